@@ -64,13 +64,18 @@ SQL_TRUE = [
     "SELECT * FROM users WHERE id = ", "select name from t where a=", "Select a,\n b From\tt Where x = ", "DELETE FROM users WHERE id = ",
     "delete   from t where ", "INSERT INTO t (a, b) VALUES (", "insert\ninto t values\n(", "UPDATE users SET name = ", "update t\tset a = ",
     "WITH x AS (SELECT a FROM t ) select * from x where ", "-- c\nSELECT a FROM t ",
+    # every statement form with more than one token between the keywords (seeded change C17-m2: `update\s+(\S+\s+)?set\s`)
+    "UPDATE users u SET name = ", "UPDATE users AS u SET name = ", "UPDATE ONLY t SET a = ", "UPDATE OR REPLACE t SET a = ", "update a, b set a.x = ",
+    "UPDATE a JOIN b ON a.id = b.id SET a.x = ", 'UPDATE "my table" SET a = ', "SELECT DISTINCT a, b FROM t1 JOIN t2 WHERE ", "select top 5 * from t where ",
 ]
 SQL_FALSE = [
     "hello world ", "selection from the menu ", "select", "SELECT * FROM", "selectfrom x ", "delete from", "deleted from t ", "insert values into t ",
     "update", "updates set ", "from t select ", "please choose from ", "values into insert ", "set update ", "",
 ]
 # partial statements: the property does not say whether a fragment is "SQL-looking"
-SQL_OPEN = ["SELECT * FROM\xa0t ", "select\u2003a from t ", "ſelect a from t ", "SELECT a \u212a FROM t ", "update t set", "İNSERT INTO t VALUES (", "ınsert into t values ("]
+SQL_OPEN = ["SELECT * FROM\xa0t ", "select\u2003a from t ", "ſelect a from t ", "SELECT a \u212a FROM t ", "update t set", "İNSERT INTO t VALUES (", "ınsert into t values (",
+            # modifiers between the keywords of INSERT / DELETE are outside the documented pattern (`insert\s+into`, `delete\s+from`): not judged
+            "INSERT OR IGNORE INTO t VALUES (", "insert low_priority into t (a) values (", "DELETE QUICK IGNORE FROM t WHERE "]
 
 
 def py(s):
